@@ -620,6 +620,10 @@ class XPathToken(Token[ta.XPathTokenType]):
             if isinstance(op1, (int, float, decimal.Decimal)) and \
                     isinstance(op2, (AbstractDateTime, AbstractBinary, Duration)):
                 raise TypeError(msg.format(type(op1), type(op2)))
+            if isinstance(op1, UntypedAtomic) and isinstance(op2, AbstractDateTime):
+                op1 = type(op2).fromstring(op1.value)  # cast before the implicit timezone applies
+            elif isinstance(op2, UntypedAtomic) and isinstance(op1, AbstractDateTime):
+                op2 = type(op1).fromstring(op2.value)
             yield self.with_implicit_timezone(context, op1, op2)
 
     @staticmethod
